@@ -258,6 +258,21 @@ def gen_row_units(rng, row, budget, state):
   return units
 
 
+def _with_pauses(rng, units, p):
+  """word-by-word delivery in the direct modes: idle time before a text piece, which then starts with a space"""
+  out = []
+  seen_txt = False
+  for u in units:
+    if u[0] == "txt" and seen_txt and out and out[-1][0] in ("txt", "spc", "ext") and rng.random() < p:
+      out.append(["gap", rng.choice([20, 30, 60])])
+      out.append(["txt", " " + u[1]])
+    else:
+      out.append(u)
+    if u[0] == "txt":
+      seen_txt = True
+  return out
+
+
 def gen_script(rng, knobs):
   """A sequence of captions in one or more of the three styles, with clean mode switches."""
   script = []
@@ -321,6 +336,8 @@ def gen_script(rng, knobs):
           while row_units and (row_units[0][0] == "pac" or (row_units[0][0] == "ctl" and row_units[0][1].startswith("TO"))):
             row_units.pop(0)
           state["color"] = 0
+        if knobs.get("pause"):
+          row_units = _with_pauses(rng, row_units, knobs["pause"])
         script += row_units
         k += 1
         script.append(["gap", rng.choice([20, 45, 90])])
@@ -341,7 +358,10 @@ def gen_script(rng, knobs):
         free = [r for r in range(1, 16) if r not in used]
         row = rng.choice(free)
         used.add(row)
-        script += gen_row_units(rng, row, rng.choice([8, 16, 30]), state)
+        row_units = gen_row_units(rng, row, rng.choice([8, 16, 30]), state)
+        if knobs.get("pause"):
+          row_units = _with_pauses(rng, row_units, knobs["pause"])
+        script += row_units
         k += 1
         script.append(["gap", rng.choice([20, 45, 90])])
       script += [["ctl", "EDM"], ["gap", rng.choice([20, 30, 120])]]
